@@ -160,7 +160,8 @@ CLAIMED = {
          "penalty), C01_lower (if the penalty of each reduced term is >= |coefficient| then D(s) >= M(convert_solution(s)) at "
          "EVERY s, consistent ancillas or not; C01_lower_default: always for the default 1+|v|), C01_minimiser (equal "
          "minima; every minimiser of D converts to a minimiser of M), C01_degree (every key of D has at most deg labels), "
-         "C01_core (ancillas are numbered from n upwards, each above the two labels it replaces), C01_to_quso / C01_to_puso "
+         "C01_core (ancillas are numbered from n upwards, each above the two labels it replaces), C01_renumbered_extension / "
+         "C01_renumbered_minimiser (the same for models renumbered with set_mapping / set_reverse_mapping), C01_to_quso / C01_to_puso "
          "(spin forms are the boolean reduced form under 0<->+1, 1<->-1), C01_spin_extension / C01_spin_lower (PUSO/PCSO "
          "through _create_pubo with the spin model's own mapping). Proved by induction over the fuel of the per-term loop "
          "and over the term list, with the step inequality C01_step. Tied to /repo by exact comparison of the produced "
